@@ -324,6 +324,7 @@ func c16Case(o *Out, r *Rng) {
 	{
 		var b, x strings.Builder
 		moved := false
+		multiInput := false
 		for _, d := range set.defs {
 			cp := *d
 			var ext *sDef
@@ -350,6 +351,9 @@ func c16Case(o *Out, r *Rng) {
 				if len(d.inFields) > 1 && r.Chance(50) {
 					cp.inFields = d.inFields[:1]
 					ext = &sDef{kind: "input", name: d.name, inFields: d.inFields[1:]}
+					if len(d.inFields) > 2 {
+						multiInput = true
+					}
 				}
 			}
 			b.WriteString(cp.sdl(true, false))
@@ -360,6 +364,21 @@ func c16Case(o *Out, r *Rng) {
 		}
 		if moved {
 			emit("extend", [][]*sDef{set.defs}, []string{b.String() + x.String()}, true)
+			// member order: the moved members are a suffix of each member list and an extension appends, so
+			// without sorting the lists the extended arrangement must print and introspect exactly like the inline one
+			// (ggql.Sort, which is on here, orders the keys of object literals only, not members)
+			b0, a0 := c16Observe([]string{set.sdl(true)}), c16Observe([]string{b.String() + x.String()})
+			orderSame := a0.ok == b0.ok && (!a0.ok || (a0.sdl == b0.sdl && canon(a0.intro) == canon(b0.intro)))
+			o.Count("arrangement=extend-order")
+			if multiInput {
+				o.Count("extend-order: input type extended by two or more fields")
+			}
+			o.Emit(Case{
+				Term: N("c16o", B(multiInput), B(b0.ok)),
+				Obs:  N("obs", B(a0.ok), B(orderSame)),
+				Meta: map[string]interface{}{"arrangement": "extend-order", "docs": []string{b.String() + x.String()}, "inline_sdl": b0.sdl, "extended_sdl": a0.sdl, "sdl_same": a0.sdl == b0.sdl, "intro_diff": firstDiff(canon(a0.intro), canon(b0.intro))},
+				Nontrivial: true,
+			})
 		}
 	}
 }
@@ -378,4 +397,25 @@ func init() {
 			c16Case(o, rng.Fork())
 		}
 	}
+}
+
+func firstDiff(x, y string) string {
+	i := 0
+	for i < len(x) && i < len(y) && x[i] == y[i] {
+		i++
+	}
+	if i == len(x) && i == len(y) {
+		return ""
+	}
+	lo, hx, hy := i-150, i+150, i+150
+	if lo < 0 {
+		lo = 0
+	}
+	if hx > len(x) {
+		hx = len(x)
+	}
+	if hy > len(y) {
+		hy = len(y)
+	}
+	return "A: " + x[lo:hx] + "\nB: " + y[lo:hy]
 }
